@@ -865,22 +865,23 @@ def model_norm(r):
     return r
 
 
-def call_parallel(reqs, nproc=8, chunk=40):
-    """the driver on many requests, several processes"""
+def call_parallel(reqs, nproc=8):
+    """the driver on many requests, several processes; requests are dealt out by decreasing size so that every
+    process gets its share of the big documents"""
     import core
     from concurrent.futures import ThreadPoolExecutor
     if not reqs:
         return []
-    # big documents first so that the tail is short
-    order = sorted(range(len(reqs)), key=lambda i: -len(str(reqs[i])) if len(reqs) < 4000 else 0)
-    chunks = [order[i:i + chunk] for i in range(0, len(order), chunk)]
+    order = sorted(range(len(reqs)), key=lambda i: -len(str(reqs[i])))
+    nb = nproc * 6
+    buckets = [order[k::nb] for k in range(nb)]
+    buckets = [b for b in buckets if b]
     out = [None] * len(reqs)
 
     def work(idx):
-        res = core.Driver().call_many([reqs[i] for i in idx])
-        return idx, res
+        return idx, core.Driver().call_many([reqs[i] for i in idx])
     with ThreadPoolExecutor(max_workers=nproc) as ex:
-        for idx, res in ex.map(work, chunks):
+        for idx, res in ex.map(work, buckets):
             for i, r in zip(idx, res):
                 out[i] = r
     return out
